@@ -473,6 +473,17 @@ fn tasks_for(prop: &str, tier: &str, seed: u64) -> Vec<Task> {
                             ("C12", "zorro") => scen_native::c12_native::<Zorro>(maxlen + 1),
                             _ => scen_native::c12_native::<Ed>(maxlen + 1),
                         };
+                        let mut checks = checks;
+                        if prop == "C08" && c == "secq256k1" {
+                            // memory clause: the long-list cases run in a child process with a 3 GB address space
+                            let exe = std::env::current_exe().unwrap();
+                            let r = std::process::Command::new("sh").arg("-c").arg(format!("ulimit -v 3145728; exec {} c08-child --seed {}", exe.display(), seed)).output();
+                            let (ok, what) = match r {
+                                Ok(o) => (o.status.success() && String::from_utf8_lossy(&o.stdout).contains("c08-child ok"), format!("status {:?}; {}", o.status.code(), String::from_utf8_lossy(&o.stderr).lines().last().unwrap_or("").to_string())),
+                                Err(e) => (false, format!("{}", e)),
+                            };
+                            checks.push((format!("proofs with two round lists of k = 5..31 entries are decoded, verified and batch-verified inside a 3 GB address space (child process): {}", what), ok));
+                        }
                         native_job(&prop, "native", &c, seed, checks, replay)
                     }),
                 });
@@ -679,6 +690,12 @@ fn main() {
                 h.join().unwrap();
             }
             println!("generated {} jobs in {} ({} panicked)", n, out, failed.lock().unwrap().len());
+        }
+        Some("c08-child") => {
+            let seed: u64 = get("--seed").and_then(|s| s.parse().ok()).unwrap_or(0);
+            let ok = scen_native::c08_child::<Secq>(seed);
+            println!("c08-child {}", if ok { "ok" } else { "FAILED" });
+            std::process::exit(if ok { 0 } else { 1 });
         }
         Some("zorro-consts") => {
             // values of the declared constants as exported by the compiled crate
